@@ -403,7 +403,11 @@ func streamHTTP(o opts) {
 				acts = append(acts, hact{kind: 7})
 				streamed = true
 			} else {
-				if shape != 2 { // shape 2: implicit status
+				if shape == 7 { // flush before any Write/WriteHeader (the SSE pattern): implicit 200 sent by the flush
+					acts = append(acts, hact{kind: 6})
+					streamed = true
+					status = 200
+				} else if shape != 2 { // shape 2: implicit status
 					acts = append(acts, hact{kind: 4, code: status})
 				} else {
 					status = 200
